@@ -7,9 +7,15 @@ mod common;
 mod ref_tables;
 mod refz;
 mod wl;
+#[cfg(feature = "model")]
+mod frames;
 
+#[cfg(feature = "model")]
+mod c01;
 mod c02;
 mod c04;
+#[cfg(feature = "model")]
+mod c06;
 mod c11;
 mod c14;
 mod c16;
@@ -31,8 +37,12 @@ fn main() {
         .build_global()
         .unwrap();
     let code = match args.check.as_str() {
+        #[cfg(feature = "model")]
+        "c01" => c01::run(&args),
         "c02" => c02::run(&args),
         "c04" => c04::run(&args),
+        #[cfg(feature = "model")]
+        "c06" => c06::run(&args),
         "c11" => c11::run(&args),
         "c14" => c14::run(&args),
         "c16" => c16::run(&args),
